@@ -282,6 +282,48 @@ def check_formula_language(ctx, rule, fname, site, mode):
                ("'%s' written to SBML and read back keeps bioscrape's meaning" % name), detail, fp=theirs)
 
 
+# ---- the other direction: libsbml's printers, whose text bioscrape's reader parses -----------------------------------------------
+# (SBML_formulaToL3String / SBML_formulaToString as documented and as observed with the libsbml the repository installs)
+L3_PRINTER = {'functions': 'ln, exp, abs, min, max are printed under those names (ln with one argument)',
+              'unary-minus': 'minus applied to a power is printed as -(a^b) / -a^b, a negative base as (-a)^b',
+              'nested-power': 'a power whose base is a power is printed without parentheses: (a^b)^c becomes a^b^c'}
+LEGACY_PRINTER = {'functions': 'ln is printed as log, min / max as calls of functions of that name',
+                  'unary-minus': 'minus applied to a power is printed as -a^b',
+                  'nested-power': 'a power whose base is a power is printed without parentheses: (a^b)^c becomes a^b^c'}
+BIOSCRAPE_READS = {'functions': 'ln, exp, abs, min, max are printed under those names (ln with one argument)',
+                   'unary-minus': 'minus applied to a power is printed as -(a^b) / -a^b, a negative base as (-a)^b',
+                   'nested-power': 'a^b^c is a^(b^c): a power whose base is a power needs its parentheses'}
+
+
+def check_printer_language(ctx, rule, fname, site):
+    """the text libsbml's printer produces for the document's MathML means to bioscrape's parser what the MathML means"""
+    f = get_func(ctx, fname)
+    printers = ('formulaToL3String', 'formulaToString', 'formulaToL3StringWithSettings', 'getFormula')
+    calls = [c for c in ast.walk(f) if isinstance(c, ast.Call) and src(c.func).split('.')[-1] in printers]
+    if not calls:
+        # through a helper of the module
+        m = ctx.prog.mod('sbmlutil')
+        helpers = {g.name: g for g in m.tree.body if isinstance(g, ast.FunctionDef)}
+        for c in ast.walk(f):
+            if isinstance(c, ast.Call) and isinstance(c.func, ast.Name) and c.func.id in helpers:
+                calls += [x for x in ast.walk(helpers[c.func.id]) if isinstance(x, ast.Call) and src(x.func).split('.')[-1] in printers]
+    kinds = sorted({src(c.func).split('.')[-1] for c in calls})
+    if len(kinds) != 1:
+        for row in BIOSCRAPE_READS:
+            ctx.ob(rule, '%s/%s' % (site, row), False, ctx.loc('sbmlutil', f), "libsbml's printer writes '%s' the way bioscrape's parser reads it" % row,
+                   'the formula text of %s comes from %s' % (fname, kinds or 'no libsbml printer'), fp='printers:%s' % ','.join(kinds))
+        return
+    name = kinds[0]
+    table = L3_PRINTER if name.startswith('formulaToL3String') else LEGACY_PRINTER
+    # a helper that re-parenthesises the tree before printing would show as a call on the printed argument: none is recognised, so the
+    # table describes the printer as called
+    for row, mine in BIOSCRAPE_READS.items():
+        ok = table[row] == mine
+        ctx.ob(rule, '%s/%s' % (site, row), ok, ctx.loc('sbmlutil', calls[0]),
+               "libsbml's printer writes '%s' the way bioscrape's parser reads it" % row,
+               '' if ok else "libsbml.%s: %s; bioscrape's parser: %s" % (name, table[row], mine), fp='%s/%s' % (name, row))
+
+
 def check_parameter_ids(ctx, rule):
     """the id a parameter gets in the document is the name the laws and annotations use for it: no renaming on the way"""
     f = get_func(ctx, 'add_parameter')
@@ -440,10 +482,11 @@ def check(ctx):
     # for it (C12 R12.3 add_parameter/value) - re-emitted here
     sub = SubCtx(ctx)
     c12.check_writer_values(sub)
+    c12.check_values_kept(sub)
     for rule, key, ok, where, what, detail in sub.got:
-        if rule == 'R12.3-forwarding' and key == 'add_parameter/value':
+        if rule == 'R12.3-forwarding' and key in ('add_parameter/value', 'values-kept'):
             ctx.ob('R14.7-parameter-values', key, ok, where, what, detail)
-    ctx.floor('R14.7-parameter-values', 1)
+    ctx.floor('R14.7-parameter-values', 2)
     ctx.floor('R14.1-identifiers', 6)
     ctx.floor('R14.2-value', 7)
     ctx.floor('R14.4-modifiers', 5)
